@@ -44,7 +44,8 @@ ASSUMPTIONS = [
 ]
 REQUIRED = ["tree_form_checked", "table_form_checked", "file_form_checked", "idempotence_checked",
             "tap_sort_nodes_impl", "is_sorted_true", "is_sorted_on_inputs", "tree_root_not_at_0", "size_sweep_cases",
-            "read_options_by_position", "sorted_results_edited_then_sorted_again"]
+            "read_options_by_position", "sorted_results_edited_then_sorted_again",
+            "worker_results_kept_across_another_sort"]
 FLOOR = {"quick": 1000, "thorough": 60000}
 SHARDS = {"quick": 8, "thorough": 16}
 
@@ -161,6 +162,27 @@ def _tree_form(ctx, case, spec):
     ctx.count("idempotence_checked")
     if r:
         return ctx.violation(r[0], r[1], case)
+    # the two-step use of the exported worker: the (new ids, new parents, row index) of this
+    # topology are kept while another topology of the same size is sorted, and are applied afterwards
+    if len(out.id()) >= 2:
+        n_ = len(out.id())
+        ids_a, pids_a = np.array(tree.id()), np.array(tree.pid())
+        (nid_a, npid_a), idx_a = su.sort_nodes_impl((ids_a, pids_a))
+        other_p = np.arange(-1, n_ - 1)[::-1].copy()  # a chain numbered from the tip: n-1 <- ... <- 0
+        other_p = np.where(np.arange(n_) == n_ - 1, -1, np.arange(n_) + 1)
+        su.sort_nodes_impl((np.arange(n_), other_p))
+        su.sort_nodes_impl((np.arange(n_, dtype=ids_a.dtype), other_p.astype(pids_a.dtype)))
+        ctx.count("worker_results_kept_across_another_sort")
+        r = _check_sorted_result(nid_a, npid_a, "sort_nodes_impl (result kept across another sort)")
+        if r:
+            return ctx.violation(r[0], r[1], case)
+        tags_k = np.asarray(tree.ndata["tag"])[idx_a]
+        if sorted(int(t_) for t_ in tags_k) != sorted(int(t_) for t_ in tree.ndata["tag"]) or \
+                _relation(tree.ndata["tag"], pids_a) != _relation(tags_k, npid_a):
+            return ctx.violation("parent-relation-changed",
+                                 "sort_nodes_impl: the row index returned for one table, applied after "
+                                 "another table of the same size was sorted, no longer carries the "
+                                 "columns to their nodes", case)
     # the sorted result lives on: it is re-rooted without sorting, or a node of a copy of it is
     # re-attached in place -- and what comes out of that is sorted again
     n = len(out.id())
